@@ -19,7 +19,9 @@ RACE_RULE = (" stagerace (no model run, oracles on facts): the real Stage with c
              "logged twice or before its predecessor, every complete file is delivered; (ready) a restart on a stage that holds a complete, unvalidated "
              "16..40 MiB file: from the moment the gate keeper answers 'ready' again no recovered file may still be unvalidated; (late) a duplicate of a file's "
              "first part - intact or damaged - stalls before its first byte while the file completes on another connection and is delivered or held; "
-             "then the stalled body arrives: what is delivered / held must still be the announced content.")
+             "then the stalled body arrives: what is delivered / held must still be the announced content; (hold) a fresh file is held for a predecessor "
+             "that was delivered 3 / 6 / 9 days ago and is known from the receive log only (receiver restarted): whenever the held file's own timer is "
+             "pending it is fired at once; the file must come out after a bounded number of re-examinations, and a held file without a pending timer is stuck.")
 
 STAGE_RULE = ("stage: seeded operation sequences against a real Stage on a temp directory with the real log.FileIO: 1..4 files (1..24 bytes, nested names, renames, "
               "predecessor chains; profiles: plain protocol, new versions of a name, corruption (flipped bytes, short/failing readers, wrong announced hash, "
@@ -342,8 +344,9 @@ PROPS = {
         coq="Properties/C03.v",
         suites=[e2e_suite("plain,faults,eligible,pollnone", ["not_delivered_within_bound", "pipeline_never_drains_after_vanished_file", "staging_area_not_empty_at_the_end"], n=12),
                 e2e_suite("mutate,vanish", ["not_delivered_within_bound", "not_confirmed_after_rewrite_in_flight", "pipeline_never_drains_after_vanished_file"], n=8),
-                e2e_suite("crashfail,crash", ["not_delivered_after_sender_restart"], n=6)],
-        rule=E2E_RULE,
+                e2e_suite("crashfail,crash", ["not_delivered_after_sender_restart"], n=6),
+                race_suite(["held_file_never_released_although_predecessor_logged", "complete_file_not_delivered"])],
+        rule=E2E_RULE + RACE_RULE,
         level_text=("Partial. Proof: through any failure sequence the send loop loses no part and drains completely once a request succeeds; negative or missing "
                     "poll answers always lead to another attempt. Exploration: fault scripts (all request-failure kinds, corruption, poll failures) followed by "
                     "a failure-free period must end with every eligible file delivered, confirmed, released, the staging area empty and the sender stopped, "
